@@ -235,3 +235,18 @@ Example c04_nodes_instance :
                     | None => true
                     end) the_defs = true.
 Proof. vm_compute. repeat split; reflexivity. Qed.
+
+(** validateVariables' visitor (C04's [usage_errs]) is silent inside both argument values of
+    [the_field] under C04's annotated variable definitions of [the_op] *)
+From ApiFu Require Cost.CostC04Usage Vld.ProofsTypeInfoValues.
+Example c04_usage_instance :
+  forallb (fun a : Values.name * Values.lit =>
+             match Values.aget (fst a) (af_argdefs the_field) with
+             | Some d =>
+                 CostC04Usage.nil_errs
+                   (ProofsTypeInfoValues.usage_errs true (BridgeC04.tr_env EE) (CostC04Usage.ann_vardefs the_defs) false
+                      (Some (BridgeC04.tr_sty (Values.in_type d))) (CoerceModel.arg_loc_default true d) (BridgeC04.tr_lit (snd a)))
+             | None => false
+             end) (af_args the_field) = true
+  /\ forallb (fun d => CoerceModel.type_known EE (Values.vd_type d)) the_defs = true.
+Proof. vm_compute. split; reflexivity. Qed.
